@@ -877,6 +877,17 @@ def format_safe(ctx, rule='C17.format-safe'):
                       and not x.attr.startswith('__') and (q, x.attr) not in FORMAT_EXEMPT})
         R.check(not bad, rule, q, 'its formatting methods read only attributes the class (or a base, or the module) defines',
                 f'{q}.__str__ reads `self.{bad[0]}`, which nothing defines: formatting such an object raises AttributeError, and received PDUs are formatted for the debug log before they are dispatched' if bad else '', p.loc(fm[0][1]))
+        # optional fields formatted as numbers: `f'{self.x:04x}'` raises TypeError for None; accepted only under some guard
+        # (a test of the field itself or of the discriminant that says the field is present)
+        optional = {a for c in chain for a, an in c.annots.items() if ' | None' in text(an) or text(an).startswith('Optional[')}
+        for mn, m in fm:
+            for fv in [x for x in ast.walk(m) if isinstance(x, ast.FormattedValue) and x.format_spec is not None]:
+                spec = ''.join(v.value for v in fv.format_spec.values if isinstance(v, ast.Constant) and isinstance(v.value, str))
+                v = fv.value
+                if isinstance(v, ast.Attribute) and dotted(v.value) == 'self' and v.attr in optional and spec and spec[-1] in 'xXdbon':
+                    guarded = bool(paths.flat_guards(fv, stop=m))
+                    R.check(guarded, rule, f'{q}.{mn} | self.{v.attr}:{spec}', 'formatted as a number only under a guard',
+                            f'`self.{v.attr}` may be None (declared optional) and is formatted with `:{spec}` unconditionally: formatting raises TypeError, and packets are formatted for the debug log before they are handed on, so such a packet is never sent / dispatched', p.loc(fv))
     R.check(n >= 30, rule, 'protocol modules | classes with formatting methods', f'{n} classes examined', f'only {n} classes examined')
 
 
